@@ -57,6 +57,8 @@ STATIONS = ['020000000011', '020000000012', '020000000013', '030000000011', '020
 # near-collision pool: pairs differing in exactly one byte position
 NEAR = [OWN, '03aabbccdd01', '02abbbccdd01', '02aabcccdd01', '02aabbcddd01', '02aabbccde01', '02aabbccdd00', '000000000000', BCAST]
 U16 = [0, 1, 0x00ff, 0x0100, 0x7fff, 0x8000, 0xffff]
+# generations: zero, small, byte-reversed pairs, byte palindromes — drawn from a small pool so that they repeat and alternate within one history
+GENS = [0, 1, 2, 0x0100, 0x0001, 0x1234, 0x3412, 0x4242, 0x0101, 0xffff, 0x00ff, 0xff00]
 
 
 def wrap_counts(size):
@@ -202,7 +204,7 @@ def universal(rng, nif=None, length=None, with_glob_changes=True):
                 ops.append('rx %d %s zero' % (i, probe('0e%02x0000%04x' % (tag, k), own, rng.choice([who, rand_mac(rng)]), own, train=k % 3 == 0)))
             continue
         if c < 0.16:
-            gen = rng.choice([0, 1, 1, 2, 0xffff, rng.randrange(65536)])
+            gen = rng.choice(GENS + [rng.randrange(65536)])
             st = [rng.choice([own, rand_mac(rng)]) for _ in range(rng.choice([0, 0, 1, 3]))]
             f = discover(who, gen, rng.randrange(65536), st, tos=rng.choice([0, 0, 1, 1, 2, 3, 0xff]), eth_src=eth)
             if mapper[i] is None:
